@@ -156,6 +156,7 @@ func Spec(prop, tier string) *core.CheckSpec {
 			Batches: []core.Batch{
 				{Engine: "iso", Mode: "", Runs: n(8000, 800000), Millis: ms(30000, 600000), Chunk: 500},
 				{Engine: "iso", Mode: "", Variant: "race", Runs: n(1500, 200000), Millis: ms(25000, 600000), HangS: 120, Chunk: 300},
+				{Engine: "iso", Mode: "fresh", Variant: "race", Runs: n(240, 30000), Millis: ms(20000, 300000), HangS: 120, Chunk: 3, Workers: 8, Note: "a new worker process every three runs, every runtime touching what the libraries set up on first use: initialisation shared between runtimes happens once per process and has to fall inside an observed run"},
 				{Engine: "iso", Mode: "par", Variant: "race", Runs: n(800, 100000), Millis: ms(20000, 400000), HangS: 120, Chunk: 100, Sound: true, Env: []string{"GOMAXPROCS=4"}, Workers: 4, Note: "runtimes on truly concurrent goroutines, no scheduler; only race reports and repeatable differences count"},
 			},
 			Real:   realAll,
